@@ -21,6 +21,15 @@ R5 delay dependencies: the timeout of the k-th wait is built from
    reconnection_delay_max, plus randomization_factor * random.
 R6 shutdown: not connected and a task present => abort event set, then the
    task joined / awaited.
+R7 the single-effort guard has three writers: the constructor (None),
+   _handle_eio_disconnect (the task it starts) and _handle_reconnect itself
+   (None, when its own effort has succeeded).  Any other writer disarms the
+   guard while an effort may still be running (a second concurrent effort
+   with its own back-off and attempt counter).
+R8 the guard is released when the effort is over: on the give-up and abort
+   exits of _handle_reconnect `_reconnect_task` is cleared as on success
+   (or the guard test in _handle_eio_disconnect asks the task whether it is
+   still running) - otherwise a later accidental loss never reconnects.
 """
 import ast
 
@@ -203,6 +212,34 @@ def r4_loop(ctx, fam):
                                    if isinstance(n, ast.While)},
                        max_paths=400000)
     seen = dict(abort=0, success=0, giveup=0)
+    # R8: when the effort is over the single-effort guard is released (or
+    # the guard itself can tell a finished effort from a running one)
+    d = m.method(C, '_handle_eio_disconnect')
+    liveness = any(
+        isinstance(n, ast.Call) and isinstance(n.func, ast.Attribute) and
+        n.func.attr in ('is_alive', 'done', 'ready', 'dead') and
+        '_reconnect_task' in U(n.func.value)
+        for n in walk_own(d.node)) or any(
+        isinstance(n, ast.Compare) and 'reconnecting_clients' in U(n)
+        for n in walk_own(d.node))
+    r8_seen = set()
+
+    def guard_released(kind, p):
+        if kind in r8_seen:
+            return
+        r8_seen.add(kind)
+        st = [e for e in p.events if e.kind == 'store' and
+              U(e.expr) == 'self._reconnect_task']
+        ok = liveness or (st and is_const(st[-1].extra, None))
+        ctx.check(ok, construct, 'effort over (%s): the single-effort guard '
+                  'is released' % kind,
+                  key='effort ended (%s) with _reconnect_task still set'
+                  % kind.split()[0], reason='the effort ends (%s) but '
+                  '_reconnect_task keeps the finished task: when the '
+                  'application connects again and the transport is lost, '
+                  '_handle_eio_disconnect sees `not self._reconnect_task` '
+                  'false and never reconnects' % kind, where=w,
+                  rid='C10.R8')
     for p in run.paths:
         if not p.normal:
             continue
@@ -237,6 +274,7 @@ def r4_loop(ctx, fam):
                       'TimeoutError' in U(e.expr)]
             aborted = len(caught) < len(waits)
         if aborted:
+            guard_released('aborted by shutdown()', p)
             seen['abort'] += 1
             last_wait = waits[-1]
             ctx.check(not [a for a in attempts if a.idx > last_wait.idx],
@@ -255,6 +293,7 @@ def r4_loop(ctx, fam):
                       'and leaves the loop', key='success-clear', where=w)
             continue
         # gave up after a failed attempt: the bound test
+        guard_released('gave up after reconnection_attempts attempts', p)
         seen['giveup'] += 1
         lim = [c for c in p.conds if c.pol and
                U(run.expand(c.atom)) == 'self.reconnection_attempts']
@@ -415,7 +454,40 @@ def r6_shutdown(ctx, fam):
                 'reconnecting branch', where(f))
 
 
+def r7_guard_writers(ctx, fam):
+    m = ctx.model
+    C = CLIENT[fam]
+    allowed = {'__init__', '_handle_eio_disconnect', '_handle_reconnect'}
+    n = 0
+    for f, stmt in m.attr_writes.get('_reconnect_task', []):
+        owner = f
+        while owner.cls is None and owner.parent is not None:
+            owner = owner.parent
+        if owner.cls is None or owner.cls.name not in (C, 'BaseClient'):
+            continue
+        n += 1
+        ctx.check(owner.name in allowed, '%s.%s' % (owner.cls.name,
+                                                    owner.name),
+                  '_reconnect_task written by its owners only',
+                  key='guard-writer', reason='%s.%s assigns '
+                  '_reconnect_task: the single-effort guard of '
+                  '_handle_eio_disconnect is disarmed while a reconnection '
+                  'effort may still be running (every attempt of the effort '
+                  'goes through connect())' % (owner.cls.name, owner.name),
+                  where=where(f, stmt))
+    if n < 2:
+        raise AnalysisError('%s: only %d writers of _reconnect_task found '
+                            '(constructor, start and success confirmed by '
+                            'hand)' % (C, n))
+
+
 def run(ctx):
+    ctx.rule('C10.R7', 'writers of the single-effort guard _reconnect_task',
+             floor=4)
+    for fam in SA:
+        r7_guard_writers(ctx, fam)
+    ctx.rule('C10.R8', 'when a reconnection effort is over (success, give-up, '
+             'abort) the single-effort guard is released', floor=4)
     ctx.rule('C10.R1', 'who may start a reconnection', floor=4)
     ctx.rule('C10.R2', 'start dominated by will_reconnect and no existing '
              'task; will_reconnect = reconnection and transport state '
